@@ -557,4 +557,4 @@ pub fn run(rep: &Report) {
     rep.floor("mutants run through the binary", rep.counter("mutants run through the binary"), 300);
 }
 
-pub const RULE: &str = "valid parents (random well-formed programs of all instruction classes and structured programs; each is first checked to be accepted) receive one defect each: a defective instruction line inserted at a random position of the code (top level or inside a procedure) from 46 templates (a third of them also carried by a macro whose use must be refused) - jump to an undefined / data label (14 jump spellings), call of a code label / data label / unknown name, byte/word data operand or OFFSET naming a code label or an unknown name, mixed operand widths (7 shapes x 10 mnemonics), two memory operands (5 shapes), unsupported instructions (in/out/lds/les/wait/esc/lock/into/iret), interrupt numbers other than 3/10h/21h in three radices, unsupported directives, duplicate code labels, a code label redefining a data label; a macro use carrying two forward jumps of which one target is never defined; duplicate data labels and procedures; every constant position (imm8/imm16 to register, memory, label; logic immediates; displacements of all addressing shapes; direct addresses; shift counts; SET; DB/DW values, fill values and array sizes) pushed one past the upper end, one past the lower end, and far outside in decimal/hex/binary; constants written as OFFSET of a data label placed at offsets 256..65535 in ten 8-bit positions; 'start' removed, spelled 'Start', or made a data label; jumps/calls to, and 'start' as, a label of each of 15 kinds of data definition incl. empty ones; at AST level the definition of a referenced label dropped and a jump retargeted to a data label / undefined name. Oracle: in process Preprocessor::parse is Err with a non-empty message or the replicated driver checks refuse; through the binary (every 8th mutant, and every mutant whose refusal is the driver's job: undefined labels, missing start) there are zero hook records, non-empty output and a clean exit. Distinct = mutation class (incl. position). Undefined jump targets among 257..5000 forward references to a label defined later; two forward jumps out of one macro use.";
+pub const RULE: &str = "valid parents (random well-formed programs of all instruction classes and structured programs; each is first checked to be accepted) receive one defect each: a defective instruction line inserted at a random position of the code (top level or inside a procedure) from 46 templates (a third of them also carried by a macro whose use must be refused) - jump to an undefined / data label (14 jump spellings), call of a code label / data label / unknown name, byte/word data operand or OFFSET naming a code label or an unknown name, mixed operand widths (7 shapes x 10 mnemonics), two memory operands (5 shapes), unsupported instructions (in/out/lds/les/wait/esc/lock/into/iret), interrupt numbers other than 3/10h/21h in three radices, unsupported directives, duplicate code labels, a code label redefining a data label; a macro use carrying two forward jumps of which one target is never defined; duplicate data labels and procedures; every constant position (imm8/imm16 to register, memory, label; logic immediates; displacements of all addressing shapes; direct addresses; shift counts; SET; DB/DW values, fill values and array sizes) pushed one past the upper end, one past the lower end, and far outside in decimal/hex/binary; constants written as OFFSET of a data label placed at offsets 256..65535 in ten 8-bit positions; 'start' removed, spelled 'Start', or made a data label; jumps/calls to, and 'start' as, a label of each of 15 kinds of data definition incl. empty ones; at AST level the definition of a referenced label dropped and a jump retargeted to a data label / undefined name. Oracle: in process Preprocessor::parse is Err with a non-empty message or the replicated driver checks refuse; through the binary (every 8th mutant, and every mutant whose refusal is the driver's job: undefined labels, missing start) there are zero hook records, non-empty output and a clean exit. Distinct = mutation class (incl. position). Undefined jump targets among 257..5000 forward references to a label defined later; two forward jumps out of one macro use. Aftermath: small invalid programs leaning on names that an earlier program (refused inside a macro expansion) defined must still be refused on the clear()ed context.";
